@@ -27,6 +27,7 @@ import json
 import os
 
 import hirq
+import sval
 import tables
 from bits import BV, Evaluator
 from facts import short
@@ -134,6 +135,20 @@ def body_expr(fn):
     return tables.peel(hirq.body_root(fn))
 
 
+def be_bytes_of(arr, name, nbytes=4):
+    """is `arr` (term) the big-endian byte sequence of the `nbytes`-byte input `name`?"""
+    if arr[0] != "arr" or len(arr[1]) != nbytes:
+        return False
+    for i, x in enumerate(arr[1]):
+        b = sval.bv(x)
+        if b is None or b.w != 8:
+            return False
+        hi = (nbytes - 1 - i) * 8
+        if b.routing() != {k: (name, hi + k) for k in range(8)}:
+            return False
+    return True
+
+
 def r2(fx, chk):
     f_u32 = fx.impl_fn("FourCC", "From<u32>", "from")
     f_ref = fx.impl_fn("u32", "From<&FourCC>", "from")
@@ -145,50 +160,63 @@ def r2(fx, chk):
                   ("From<[u8;4]> for FourCC", f_arr), ("From<BoxType> for FourCC", f_bt), ("FromStr for FourCC", f_str)):
         if not chk.anchor("R2", nm, f):
             return
-    # From<u32>: FourCC { value: number.to_be_bytes() }
-    e = body_expr(f_u32)
-    ok = False
-    if e.get("k") == "struct" and last(e.get("def")) == "FourCC" and len(e["fields"]) == 1:
-        v = e["fields"][0]["e"]
-        if v.get("k") == "mcall" and (v.get("fn") or "").endswith("::to_be_bytes") and v["recv"].get("res") == "local":
-            ok = True
-    chk.require(ok, "R2", "From<u32>", "value = number.to_be_bytes()", "From<u32> for FourCC does not store number.to_be_bytes(): " + hirq.expr_str(e), site_of(f_u32))
-    # From<&FourCC> for u32: u32::from_be_bytes(fourcc.value)
-    e = body_expr(f_ref)
-    ok = e.get("k") == "call" and (e.get("fn") or "").endswith("::from_be_bytes") and len(e["args"]) == 1 and hirq.path_str(e["args"][0]) is not None and hirq.path_str(e["args"][0]).endswith(".value")
-    chk.require(ok, "R2", "From<&FourCC>", "u32::from_be_bytes(fourcc.value)", "From<&FourCC> for u32 is not from_be_bytes of the stored bytes: " + hirq.expr_str(e), site_of(f_ref))
-    # From<FourCC> for u32 delegates to From<&FourCC>
-    e = body_expr(f_val)
-    ok = e.get("k") in ("mcall", "call") and tables.resolve_conv(fx, e) == f_ref["id"]
-    chk.require(ok, "R2", "From<FourCC>", "delegates to From<&FourCC>", "From<FourCC> for u32 does not delegate to the by-reference conversion: " + hirq.expr_str(e), site_of(f_val))
-    # From<[u8;4]>
-    e = body_expr(f_arr)
-    ok = e.get("k") == "struct" and len(e["fields"]) == 1 and e["fields"][0]["e"].get("res") == "local"
-    chk.require(ok, "R2", "From<[u8;4]>", "stores its argument", "From<[u8;4]> for FourCC does not store its argument unchanged: " + hirq.expr_str(e), site_of(f_arr))
-    # From<BoxType>: calls From<BoxType> for u32 then From<u32> for FourCC
-    called = set()
-    for n, _ in hirq.walk(hirq.body_root(f_bt)):
-        if n.get("k") in ("call", "mcall"):
-            called.add(tables.resolve_conv(fx, n))
+    # Every conversion is evaluated abstractly (sval): the rule looks at the value it computes, so delegation between the
+    # impls, temporaries and the spelling of the byte shuffling do not matter.
+    def ev(f, keep=()):
+        return sval.SVal(fx, keep=lambda fid: fid in keep).eval_fn(f)
+
+    def fourcc_value(t):
+        return t[2].get("value") if t[0] == "struct" and last(t[1]) == "FourCC" else None
+    # From<u32>: value = big-endian bytes of the number
+    t = ev(f_u32)
+    pname = f_u32["hir"]["params"][0].get("name")
+    v = fourcc_value(t)
+    chk.require(v is not None and be_bytes_of(v, pname), "R2", "From<u32>", "value = big-endian bytes of the number", "From<u32> for FourCC does not store the big-endian bytes of the number: " + sval.show(t)[:200], site_of(f_u32))
+    # u32 from (&)FourCC: the four stored bytes, first byte most significant
+    for key, f in (("From<&FourCC>", f_ref), ("From<FourCC>", f_val)):
+        t = ev(f)
+        b = sval.bv(t)
+        pn = f["hir"]["params"][0].get("name")
+        want = {}
+        for i in range(4):
+            for k in range(8):
+                want[(3 - i) * 8 + k] = ("%s.value[%d]" % (pn, i), k)
+        chk.require(b is not None and b.w == 32 and b.routing() == want, "R2", key, "u32 = stored bytes, first byte most significant",
+                    "%s for u32 is not the big-endian value of the stored bytes: %s" % (key, sval.show(t)[:200]), site_of(f))
+    # From<[u8;4]>: stores its argument unchanged
+    t = ev(f_arr)
+    pn = f_arr["hir"]["params"][0].get("name")
+    v = fourcc_value(t)
+    ok = v is not None and v[0] == "arr" and len(v[1]) == 4 and all(sval.bv(x) is not None and sval.bv(x).routing() == {k: ("%s[%d]" % (pn, i), k) for k in range(8)} for i, x in enumerate(v[1]))
+    chk.require(ok, "R2", "From<[u8;4]>", "stores its argument", "From<[u8;4]> for FourCC does not store its argument unchanged: " + sval.show(t)[:200], site_of(f_arr))
+    # From<BoxType>: big-endian bytes of the code that From<BoxType> for u32 (checked by R1) assigns
     f_into = fx.impl_fn("u32", "From<BoxType>", "from")
-    ok = f_into is not None and f_into["id"] in called and f_u32["id"] in called
-    chk.require(ok, "R2", "From<BoxType>", "composes BoxType->u32 and u32->FourCC", "From<BoxType> for FourCC does not compose the two exact conversions (calls %s)" % sorted(called), site_of(f_bt))
-    # FromStr: if let [a,b,c,d] = s.as_bytes() { Ok(Self{value:[*a,*b,*c,*d]}) } else { Err }
     ok = False
-    for n, _ in hirq.walk(hirq.body_root(f_str)):
-        if n.get("k") == "if" and n["cond"].get("k") == "letx":
-            p = n["cond"]["pat"]
-            init = n["cond"]["init"]
-            if p.get("k") == "slice" and len(p["before"]) == 4 and p.get("mid") is None and not p["after"] and init.get("k") == "mcall" and init["m"] == "as_bytes":
-                names = [b["name"] for b in p["before"] if b.get("k") == "bind"]
-                arr = None
-                for m, _ in hirq.walk(n["then"]):
-                    if m.get("k") == "array" and len(m["es"]) == 4:
-                        arr = [hirq.path_str(x["e"]) if x.get("k") == "un" else hirq.path_str(x) for x in m["es"]]
-                els = n.get("else")
-                err = els is not None and any((m.get("fn") or "").endswith("Result::Err") for m, _ in hirq.walk(els) if m.get("k") == "call")
-                ok = len(names) == 4 and arr == names and err
-    chk.require(ok, "R2", "FromStr", "accepts exactly 4 bytes, stores them in order, else Err", "FromStr for FourCC does not accept exactly the 4-byte pattern in order", site_of(f_str))
+    t = ("opaque", "From<BoxType> for u32 not found")
+    if f_into is not None:
+        t = ev(f_bt, keep=(f_into["id"],))
+        v = fourcc_value(t)
+        names = set()
+        if v is not None and v[0] == "arr":
+            for x in v[1]:
+                b = sval.bv(x)
+                names |= {r[0] for r in (b.routing().values() if b is not None else [])}
+        ok = len(names) == 1 and list(names)[0].startswith("conv:" + f_into["id"] + "(") and be_bytes_of(v, list(names)[0])
+    chk.require(ok, "R2", "From<BoxType>", "big-endian bytes of u32::from(box type)", "From<BoxType> for FourCC is not the big-endian code of the box type: " + sval.show(t)[:200], site_of(f_bt))
+    # FromStr: exactly four bytes, stored in order, anything else rejected
+    t = ev(f_str)
+    pn = f_str["hir"]["params"][0].get("name")
+    ok = False
+    if t[0] == "ite" and t[1] == ("lenis", ("slice", pn), 4):
+        a, b = t[2], t[3]
+        if a[0] == "return":
+            a = a[1]
+        if b[0] == "return":
+            b = b[1]
+        va = fourcc_value(a[2][0]) if a[0] == "variant" and last(a[1]) == "Ok" and a[2] else None
+        good = va is not None and va[0] == "arr" and len(va[1]) == 4 and all(sval.bv(x) is not None and sval.bv(x).routing() == {k: ("%s[%d]" % (pn, i), k) for k in range(8)} for i, x in enumerate(va[1]))
+        ok = good and b[0] == "variant" and last(b[1]) == "Err"
+    chk.require(ok, "R2", "FromStr", "accepts exactly 4 bytes, stores them in order, else Err", "FromStr for FourCC does not accept exactly the 4-byte strings in order: " + sval.show(t)[:240], site_of(f_str))
     # textual form: lossy conversion denylist
     for tr in ("Display",):
         f = fx.impl_fn("FourCC", tr, "fmt")
@@ -202,6 +230,24 @@ def r2(fx, chk):
 # ---------------------------------------------------------------------------------------------
 def enum_discrs(adt):
     return {v["name"]: v.get("discr") for v in adt["variants"]}
+
+
+def table_of(fx, f, depth=0):
+    """match table of a conversion function, following delegation to another local conversion (`(&t).into()`,
+    `Self::from(*t)`): list of (pattern, result, arm)"""
+    m = tables.find_match(f)
+    if m is not None:
+        return tables.match_table(fx, m)
+    if depth > 3:
+        return None
+    e = body_expr(f)
+    while e.get("k") in ("try", "addrof") or (e.get("k") == "un" and e.get("op") == "Deref"):
+        e = e["e"]
+    if e.get("k") in ("call", "mcall"):
+        g = tables.resolve_conv(fx, e)
+        if g in fx.fns and g != f["id"]:
+            return table_of(fx, fx.fns[g], depth + 1)
+    return None
 
 
 def r3(fx, chk):
@@ -287,7 +333,7 @@ def r3(fx, chk):
         def fwd_table(f, kind):
             out = {}
             werr = False
-            for pat, res, arm in tables.match_table(fx, tables.find_match(f)):
+            for pat, res, arm in (table_of(fx, f) or []):
                 if pat[0] == kind and res[0] == "ok" and res[1][0] == "variant":
                     key = pat[1] if kind == "str" else bytes(pat[1]).decode("latin-1")
                     if key in out:
@@ -302,7 +348,7 @@ def r3(fx, chk):
         t_s = fwd_table(tt_str, "str")
         t_b = fwd_table(tt_fcc, "bytes")
         back = {}
-        for pat, res, arm in tables.match_table(fx, tables.find_match(tt_back)):
+        for pat, res, arm in (table_of(fx, tt_back) or []):
             if pat[0] == "variant" and res[0] == "bytes":
                 back[last(pat[1])] = bytes(res[1]).decode("latin-1")
             else:
@@ -319,7 +365,7 @@ def r3(fx, chk):
     if chk.anchor("R3", "MediaType conversions", mt_str and mt_b1 and mt_b2):
         fwd = {}
         werr = False
-        for pat, res, arm in tables.match_table(fx, tables.find_match(mt_str)):
+        for pat, res, arm in (table_of(fx, mt_str) or []):
             if pat[0] == "str" and res[0] == "ok" and res[1][0] == "variant":
                 if pat[1] in fwd:
                     chk.bad("R3", "MediaType|dup|%s" % pat[1], "'%s' matched twice" % pat[1], site_of(mt_str, arm.get("line")))
@@ -332,7 +378,7 @@ def r3(fx, chk):
         backs = []
         for f in (mt_b1, mt_b2):
             b = {}
-            for pat, res, arm in tables.match_table(fx, tables.find_match(f)):
+            for pat, res, arm in (table_of(fx, f) or []):
                 if pat[0] == "variant" and res[0] == "str":
                     b[last(pat[1])] = res[1]
                 else:
@@ -347,18 +393,17 @@ def r3(fx, chk):
     # (d) AvcProfile
     f = fx.impl_fn("AvcProfile", "TryFrom<(u8, u8)>", "try_from")
     if chk.anchor("R3", "AvcProfile TryFrom<(u8,u8)>", f):
-        root = hirq.body_root(f)
-        ev = Evaluator(fx)
+        # abstract evaluation: whatever lets / destructuring the function uses, the table is keyed on a pair of values
+        # whose bits are routed from the two input bytes
         params = [p["name"] for p in f["hir"]["params"] if p.get("k") == "bind"]
-        # tuple parameter fields value.0 / value.1 are inputs named "<param>.<i>"
-        for s in root.get("stmts", []):
-            if s["k"] == "let" and s["pat"].get("k") == "bind" and "init" in s:
-                ev.env[s["pat"]["name"]] = ev.ev(s["init"])
-        m = tables.find_match(f)
+        term = sval.SVal(fx).eval_fn(f)
         comps = []
-        sc = m["scrut"]
-        if sc.get("k") == "tup":
-            comps = [ev.ev(c) for c in sc["es"]]
+        m = None
+        if term[0] == "table" and term[1][0] == "arr":
+            comps = [sval.bv(c) for c in term[1][1]]
+            if any(c is None for c in comps):
+                comps = []
+            m = {"arms": [arm for _p, _r, arm in term[2]]}
         chk.require(len(comps) == 2, "R3", "AvcProfile|scrutinee", "match on (profile, flag)", "AvcProfile::try_from does not match on a pair", site_of(f))
         if len(comps) == 2:
             pname = params[0] if params else "value"
@@ -402,6 +447,51 @@ def r3(fx, chk):
 
 
 # ---------------------------------------------------------------------------------------------
+def find_ext(t, name, depth=0):
+    """first ("ext", name-suffix, args) sub-term"""
+    if not isinstance(t, tuple) or depth > 8:
+        return None
+    if t and t[0] == "ext" and t[1].endswith(name):
+        return t
+    for x in t[1:]:
+        if isinstance(x, tuple):
+            r = find_ext(x, name, depth + 1)
+            if r is not None:
+                return r
+        elif isinstance(x, list):
+            for y in x:
+                r = find_ext(y, name, depth + 1)
+                if r is not None:
+                    return r
+        elif isinstance(x, dict):
+            for y in x.values():
+                r = find_ext(y, name, depth + 1)
+                if r is not None:
+                    return r
+    return None
+
+
+def scaled_input(t, name, src_w, wide_w, frac, signed):
+    """is term t == (input `name` widened to wide_w bits) * 2^frac ?"""
+    b = sval.bv(t)
+    if b is not None:
+        if b.w != wide_w:
+            return False
+        r = b.routing()
+        low_zero = all(b.bits[i] == 0 for i in range(frac))
+        body = all(r.get(frac + k) == (name, k) for k in range(min(src_w, wide_w - frac)))
+        return low_zero and body
+    if t[0] == "arith" and t[1] == "Mul":
+        for x, y in ((t[2], t[3]), (t[3], t[2])):
+            if sval.const_val(y) == (1 << frac):
+                bx = sval.bv(x)
+                if bx is not None and bx.w == wide_w and all(bx.routing().get(k) == (name, k) for k in range(src_w)):
+                    ext = bx.bits[src_w:]
+                    want = ("v", name, src_w - 1) if signed else 0
+                    return all(e == want for e in ext)
+    return False
+
+
 def r4(fx, chk):
     cases = [("FixedPointU8", "u8", "u16", 8), ("FixedPointI8", "i8", "i16", 8), ("FixedPointU16", "u16", "u32", 16)]
     for ty, src, wide, frac in cases:
@@ -412,55 +502,37 @@ def r4(fx, chk):
         if not chk.anchor("R4", ty + " methods", fnew and fraw and fval and frv):
             continue
         den = 1 << frac
-
-        def new_raw_call(fn):
-            for n, _ in hirq.walk(hirq.body_root(fn)):
-                if n.get("k") == "call" and (n.get("fn") or "").endswith("Ratio::<T>::new_raw") and len(n["args"]) == 2:
-                    return n
-            return None
-        c = new_raw_call(fnew)
-        ok = False
-        what = "no Ratio::new_raw call"
-        if c is not None:
-            num, d = c["args"]
-            try:
-                dv = tables.eval_const(fx, d)
-            except tables.NotConst:
-                dv = None
-            mul = None
-            if num.get("k") == "bin" and num["op"] == "Mul":
-                try:
-                    mul = tables.eval_const(fx, num["r"])
-                except tables.NotConst:
-                    mul = None
-                lhs = num["l"]
-                cast_ok = lhs.get("k") == "cast" and lhs.get("ty") == wide and lhs["e"].get("res") == "local"
-            else:
-                cast_ok = False
-            ok = dv == den and mul == den and cast_ok
-            what = "numerator %s, denominator %s" % (hirq.expr_str(num), dv)
-            # overflow: src range * mul within wide range
-            if ok:
-                lo, hi = INT_TYPES[src]
-                wlo, whi = INT_TYPES[wide]
-                chk.require(wlo <= lo * mul and hi * mul <= whi, "R4", ty + "|new-overflow", "[%d,%d]*%d fits %s" % (lo, hi, mul, wide), "%s::new can overflow %s" % (ty, wide), site_of(fnew))
-        chk.require(ok, "R4", ty + "|new", "val as %s * 2^%d over 2^%d" % (wide, frac, frac), "%s::new is not (val as %s * %d) / %d: %s" % (ty, wide, den, den, what), site_of(fnew))
-        c = new_raw_call(fraw)
-        ok = False
-        if c is not None:
-            num, d = c["args"]
-            try:
-                ok = tables.eval_const(fx, d) == den and num.get("res") == "local"
-            except tables.NotConst:
-                ok = False
-        chk.require(ok, "R4", ty + "|new_raw", "raw over 2^%d" % frac, "%s::new_raw does not build raw/%d" % (ty, den), site_of(fraw))
+        sw, ww = sval.width_of(src), sval.width_of(wide)
+        signed = src.startswith("i")
+        # new(val): Ratio::new_raw(val widened * 2^frac, 2^frac), wherever the construction happens (inline or via new_raw)
+        t = sval.SVal(fx).eval_fn(fnew)
+        c = find_ext(t, "new_raw")
+        pn = fnew["hir"]["params"][0].get("name")
+        ok = c is not None and len(c[2]) == 2 and sval.const_val(c[2][1]) == den and scaled_input(c[2][0], pn, sw, ww, frac, signed)
+        chk.require(ok, "R4", ty + "|new", "val as %s * 2^%d over 2^%d" % (wide, frac, frac), "%s::new is not (val as %s * %d) / %d: %s" % (ty, wide, den, den, sval.show(t)[:200]), site_of(fnew))
+        if ok:
+            lo, hi = INT_TYPES[src]
+            wlo, whi = INT_TYPES[wide]
+            chk.require(wlo <= lo * den and hi * den <= whi, "R4", ty + "|new-overflow", "[%d,%d]*%d fits %s" % (lo, hi, den, wide), "%s::new can overflow %s" % (ty, wide), site_of(fnew))
+        # new_raw(raw): Ratio::new_raw(raw, 2^frac)
+        t = sval.SVal(fx).eval_fn(fraw)
+        c = find_ext(t, "new_raw")
+        pn = fraw["hir"]["params"][0].get("name")
+        b0 = sval.bv(c[2][0]) if c is not None and len(c[2]) == 2 else None
+        ok = b0 is not None and b0.routing() == {k: (pn, k) for k in range(ww)} and sval.const_val(c[2][1]) == den
+        chk.require(ok, "R4", ty + "|new_raw", "raw over 2^%d" % frac, "%s::new_raw does not build raw/%d: %s" % (ty, den, sval.show(t)[:160]), site_of(fraw))
+        # value(): integer part, narrowed to the source type
+        t = sval.SVal(fx).eval_fn(fval)
+        c = find_ext(t, "to_integer")
+        ok = c is not None and (fval.get("output_s") or fval.get("output") or src) and (t[0] == "ext" and t[1] in ("cast:" + src,) or t == c)
         e = body_expr(fval)
-        ok = e.get("k") == "cast" and e["e"].get("k") == "mcall" and e["e"]["m"] == "to_integer" and e.get("ty") == src
-        chk.require(ok, "R4", ty + "|value", "to_integer() as " + src, "%s::value is not the integer part: %s" % (ty, hirq.expr_str(e)), site_of(fval))
-        e = body_expr(frv)
-        inner = e["e"] if e.get("k") == "un" else e
-        ok = inner.get("k") == "mcall" and inner["m"] == "numer"
-        chk.require(ok, "R4", ty + "|raw_value", "numerator", "%s::raw_value is not the numerator: %s" % (ty, hirq.expr_str(e)), site_of(frv))
+        ok = ok and e.get("ty", src) == src
+        chk.require(bool(ok), "R4", ty + "|value", "to_integer() as " + src, "%s::value is not the integer part: %s" % (ty, sval.show(t)[:160]), site_of(fval))
+        # raw_value(): the numerator
+        t = sval.SVal(fx).eval_fn(frv)
+        c = find_ext(t, "numer")
+        ok = c is not None and (t == c or t[0] == "ext" and t[1].startswith(("cast:", "un:")) and find_ext(t, "numer") is not None)
+        chk.require(ok, "R4", ty + "|raw_value", "numerator", "%s::raw_value is not the numerator: %s" % (ty, sval.show(t)[:160]), site_of(frv))
 
 
 # ---------------------------------------------------------------------------------------------
